@@ -27,20 +27,20 @@ import (
 const modPath = "github.com/wolimst/lib-secs2-hsms-go"
 
 type Job struct {
-	ID        string           `json:"id"`
-	Pkg       string           `json:"pkg"` // import path suffix, e.g. pkg/ast
-	Harness   string           `json:"harness"`
-	Params    map[string]int64 `json:"params"`
-	Fuel      int64            `json:"fuel"`
-	Depth     int              `json:"depth"` // call depth budget (default 400)
-	TimeoutS  float64          `json:"timeout_s"`
-	MaxPaths  int              `json:"max_paths"`
-	QueryMs   int              `json:"query_ms"`
-	Solver    string           `json:"solver"`
-	Excludes  map[string][][]Pred `json:"excludes"` // label -> list of known-finding predicates (conjunctions)
-	SMTLog    string           `json:"smt_log"`
-	Seed      uint64           `json:"seed"`
-	Cross     string           `json:"cross"` // second solver for re-deciding discharged assertions (e.g. z3-new)
+	ID       string              `json:"id"`
+	Pkg      string              `json:"pkg"` // import path suffix, e.g. pkg/ast
+	Harness  string              `json:"harness"`
+	Params   map[string]int64    `json:"params"`
+	Fuel     int64               `json:"fuel"`
+	Depth    int                 `json:"depth"` // call depth budget (default 400)
+	TimeoutS float64             `json:"timeout_s"`
+	MaxPaths int                 `json:"max_paths"`
+	QueryMs  int                 `json:"query_ms"`
+	Solver   string              `json:"solver"`
+	Excludes map[string][][]Pred `json:"excludes"` // label -> list of known-finding predicates (conjunctions)
+	SMTLog   string              `json:"smt_log"`
+	Seed     uint64              `json:"seed"`
+	Cross    string              `json:"cross"` // second solver for re-deciding discharged assertions (e.g. z3-new)
 }
 
 type Pred struct {
@@ -50,8 +50,8 @@ type Pred struct {
 }
 
 type Loaded struct {
-	prog *ssa.Program
-	pkgs map[string]*ssa.Package
+	prog  *ssa.Program
+	pkgs  map[string]*ssa.Package
 	sizes types.Sizes
 }
 
@@ -247,8 +247,6 @@ func predTerm(ts *TermStore, v *Term, p Pred) *Term {
 func (ip *Interp) runInit(init *ssa.Function) {
 	ip.callSSA(nil, 0, init, nil, nil)
 }
-
-
 
 func main() {
 	if len(os.Args) < 2 {
